@@ -171,13 +171,17 @@ def run(shard, ctx):
                "{}", "{0}", "{dev}", "nbd://{host}/x", "\\N{BULLET}", "a\nb", "dev\x00"]
     for _ in range(shard["n"]):
         strings.append("".join(rng.choice("abc/:de.v-_ 0%{}s") for _ in range(rng.randint(1, 14))))
+    # device arguments that are not str at all (a path as bytes, a one-element list ...): neither transport handles them
+    strings += [node.encode(), bytearray(node.encode()), os.fsencode(more_nodes[0]), [node], (node,), b"iscsi://h/iqn/0", ["iscsi://h/iqn/0"]]
     isc = sys.modules.get("iscsi")
     default_iqn = "iqn.2018-01.org.pyscsi:%s" % socket.gethostname()
     for dev in strings:
-        for rw in (False, True):
+        # read_write is a truth value: whatever is true asks for a read-write handle
+        rws = (False, True) if dev not in (node, more_nodes[1]) else (False, True, 0, 1, 2, 3, "rw", 1.5, os.O_RDWR, None, "", [], [1])
+        for rw in rws:
             for iname in (None, "iqn.2003-01.org.example:explicit"):
                 for entry in ("init_device", "SCSIDevice", "ISCSIDevice"):
-                    klass = "sgio" if dev[:5] == "/dev/" else "iscsi" if dev[:8] == "iscsi://" else "other"
+                    klass = "other" if not isinstance(dev, str) else "sgio" if dev[:5] == "/dev/" else "iscsi" if dev[:8] == "iscsi://" else "other"
                     if entry == "SCSIDevice" and iname is not None:
                         continue
                     if entry == "ISCSIDevice" and rw:
@@ -196,12 +200,12 @@ def run(shard, ctx):
                         exc = None
                     except Exception as e:  # noqa: BLE001
                         obj, exc = None, e
-                    opens = [a for a in audit if a[0] == "open" and a[1] == dev]
+                    opens = [a for a in audit if a[0] == "open" and (a[1] == dev or (not isinstance(dev, str) and str(a[1]).startswith(("/dev/", "b'/dev/"))))]
                     socks = [a for a in audit if a[0] != "open"]
                     conns = list(isc.calls) if isc is not None else []
                     want_sg = klass == "sgio" and entry in ("init_device", "SCSIDevice") and shard["sgio"]
                     want_is = klass == "iscsi" and entry in ("init_device", "ISCSIDevice") and shard["iscsi"]
-                    ctx.case((cfg, entry, dev, rw, iname), True, sample=dict(wit, outcome=type(exc).__name__ if exc else type(obj).__name__) if ctx.want_sample() else None)
+                    ctx.case((cfg, entry, dev if isinstance(dev, str) else repr(dev), repr(rw), iname), True, sample=dict(wit, outcome=type(exc).__name__ if exc else type(obj).__name__) if ctx.want_sample() else None)
                     ctx.add("string_classes", "%s:%s" % (klass, entry))
                     ctx.count("device_string_cases")
                     if socks:
